@@ -100,6 +100,20 @@ def find_operator_fn(prog):
     if len(cands) > 1:
         best = max(n_ops(c) for c in cands)
         cands = [c for c in cands if n_ops(c) == best]
+    # kind tests hidden in accessor methods (`lhs.as_int()`): analyse the view
+    # in which they are inlined, so that the tables see the tests again
+    import inline as _inline
+    out_ = []
+    for c in cands:
+        f0 = c[0]
+        base = getattr(f0, "base", f0)
+        if any((not x.is_ptr) and _inline.is_accessor(prog.fns.get(x.res)) for x in f0.calls()):
+            v = _inline.view(prog, base, pick=_arm_helper, accessors=True)
+            s = shape(v) if v is not base else None
+            out_.append(s if s else c)
+        else:
+            out_.append(c)
+    cands = out_
     prog._operator_fn = cands
     return cands
 
@@ -154,7 +168,7 @@ def block_constructs(prog, f, bb):
         g = prog.fns.get(c.res)
         members = getattr(f, "members", {f.root_fn().path})
         if g is not None and g.full and g.is_closure and g.root_fn().path in members:
-            out |= constructs(prog, g)
+            out |= constructs_deep(prog, g)      # (a closure may itself call a constructor helper)
 
         # combinators: a closure or constructor handed to the call
         # (`.map(Value::Int)`, `.ok_or_else(|| overflow(..))`, `.or_else(|e| ..)`)
@@ -174,7 +188,7 @@ def block_constructs(prog, f, bb):
                     if kd.get("k") == "closure":
                         h = prog.fns.get(kd["def"])
                         if h is not None and h.full:
-                            out |= constructs(prog, h)
+                            out |= constructs_deep(prog, h)
                             for c2 in h.calls():
                                 h2 = prog.fns.get(c2.res) if not c2.is_ptr else None
                                 if h2 is not None and h2.full and h2.is_closure:
